@@ -271,8 +271,9 @@ func runSched(t *testing.T, prop string, kinds []string) {
 func TestSchedC03(t *testing.T) { runSched(t, "C03", []string{"sched-growth"}) }
 func TestSchedC07(t *testing.T) { runSched(t, "C07", []string{"sched-refresh"}) }
 func TestSchedC06(t *testing.T) {
-	runSched(t, "C06", []string{"sched-lockorder", "sched-lockorder", "sched-growth", "sched-refresh"})
+	runSched(t, "C06", []string{"sched-lockorder", "sched-lockorder", "sched-growth", "sched-refresh", "sched-rr", "sched-rr"})
 }
+func TestSchedC09(t *testing.T) { runSched(t, "C09", []string{"sched-rr"}) }
 func TestSchedC20(t *testing.T) { runSched(t, "C20", []string{"sched-addr"}) }
 func TestSchedC08(t *testing.T) { runSched(t, "C08", []string{"sched-fallback"}) }
 func TestSchedC12(t *testing.T) { runSched(t, "C12", []string{"sched-stream"}) }
